@@ -191,9 +191,41 @@ impl V {
     }
 }
 
+thread_local! {
+    /// print function chains as multi-parameter abstractions and copattern spines
+    pub static SUGAR: std::cell::Cell<bool> = const { std::cell::Cell::new(false) };
+}
+
+/// the leading `fn` chain of a computation: parameters and the body below them
+fn fn_chain(mut m: &C) -> (Vec<(usize, &VTy)>, &C) {
+    let mut params = Vec::new();
+    while let C::Fn(x, a, body) = m {
+        params.push((*x, a));
+        m = body;
+    }
+    (params, m)
+}
+
 impl C {
     pub fn src(&self) -> String {
+        let sugar = SUGAR.with(|s| s.get());
         match self {
+            | C::Fn(..) if sugar => {
+                let (params, body) = fn_chain(self);
+                let ps: Vec<String> = params.iter().map(|(x, a)| format!("(x{x} : {})", a.src())).collect();
+                format!("fn {} => {}", ps.join(" "), body.src())
+            }
+            | C::Comatch(c, arms) if sugar => {
+                let arms: String = arms
+                    .iter()
+                    .map(|(k, m)| {
+                        let (params, body) = fn_chain(m);
+                        let ps: String = params.iter().map(|(x, a)| format!(" (x{x} : {})", a.src())).collect();
+                        format!(" | .{k}{ps} => {}", body.src())
+                    })
+                    .collect();
+                format!("(comatch{arms} end : C{c})")
+            }
             | C::Ret(v) => format!("ret {}", v.src()),
             | C::Bind(x, m, a, n) => format!("do x{x} <- ({} : Ret ({}));\n{}", m.src(), a.src(), n.src()),
             | C::Let(x, v, m) => format!("let x{x} = {} in\n{}", v.src(), m.src()),
@@ -368,6 +400,14 @@ impl Program {
     pub fn source(&self) -> String {
         format!("{}begin\n{}{}\nend\n", crate::pipeline::prelude(), self.sig.src(), self.body.src())
     }
+    /// the same program with function chains written as multi-parameter abstractions and
+    /// copattern spines (`| .d (a : A) (b : B) => m`)
+    pub fn source_sugared(&self) -> String {
+        SUGAR.with(|s| s.set(true));
+        let text = self.source();
+        SUGAR.with(|s| s.set(false));
+        text
+    }
     pub fn request(&self, fuel: u64, stdin: &[u8]) -> String {
         let mut out = format!("zc run {fuel} W {} {} B", hex(stdin), self.sig.tok());
         self.body.tok(&mut out);
@@ -428,7 +468,7 @@ impl<'r> Gen<'r> {
             }
             self.sig.datas.push(ctors);
         }
-        let nc = self.rng.below(3) as usize;
+        let nc = if self.rng.chance(2, 3) { 1 + self.rng.below(2) as usize } else { 0 };
         for c in 0..nc {
             let n = 1 + self.rng.below(3) as usize;
             let mut dtors = Vec::new();
@@ -436,14 +476,70 @@ impl<'r> Gen<'r> {
                 let res = CTy::Ret(Box::new(self.small_vty(1, nd, None)));
                 let b = match self.rng.below(3) {
                     | 0 => res,
-                    | 1 => CTy::Arr(Box::new(self.small_vty(1, nd, None)), Box::new(res)),
+                    | 1 => {
+                        // one to four parameters
+                        let mut b = res;
+                        for _ in 0..1 + self.rng.below(4) {
+                            b = CTy::Arr(Box::new(self.small_vty(1, nd, None)), Box::new(b));
+                        }
+                        b
+                    }
                     | _ if c > 0 => CTy::Codata(self.rng.below(c as u64) as usize),
                     | _ => res,
                 };
                 dtors.push((format!("d{c}{}", (b'a' + i as u8) as char), b));
             }
+            if c == 0 && self.rng.chance(1, 2) {
+                // several parameters of one type: a swapped argument still type checks
+                let t = VTy::Int("i64");
+                let mut b = CTy::Ret(Box::new(t.clone()));
+                for _ in 0..3 + self.rng.below(3) {
+                    b = CTy::Arr(Box::new(t.clone()), Box::new(b));
+                }
+                dtors.push((format!("d{c}z"), b));
+            }
             self.sig.codatas.push(dtors);
         }
+    }
+
+    /// An object of a codata type bound to a variable, and one observation of it: a destructor
+    /// applied to all its arguments, when that ends in a returner.
+    fn gen_object(&mut self, ctx: &Ctx, size: usize) -> Option<(usize, V, VTy, usize, C, VTy)> {
+        if self.sig.codatas.is_empty() {
+            return None;
+        }
+        let c = self.rng.below(self.sig.codatas.len() as u64) as usize;
+        let ty = CTy::Codata(c);
+        let obj = self.gen_c(&ty, ctx, size);
+        let x = self.fresh();
+        let dtors: Vec<(String, CTy)> = self.sig.codatas[c]
+            .iter()
+            .filter(|(_, b)| {
+                let mut t = b;
+                while let CTy::Arr(_, r) = t {
+                    t = r;
+                }
+                matches!(t, CTy::Ret(_))
+            })
+            .cloned()
+            .collect();
+        if dtors.is_empty() {
+            return None;
+        }
+        let (k, b) = self.rng.pick(&dtors).clone();
+        let mut call = C::Dtor(Box::new(C::Force(V::Var(x))), k, b.clone());
+        let mut t = b;
+        let mut ctx2 = ctx.clone();
+        ctx2.push((x, VTy::Thk(Box::new(ty.clone()))));
+        while let CTy::Arr(a, r) = t {
+            let arg = self.gen_v(&a, &ctx2, 2);
+            call = C::App(Box::new(call), arg, (*r).clone());
+            t = *r;
+        }
+        let CTy::Ret(res) = t else { return None };
+        self.feat("object_call");
+        let y = self.fresh();
+        Some((x, V::Thunk(Box::new(obj), ty.clone()), VTy::Thk(Box::new(ty)), y, call, *res))
     }
 
     fn lit(&mut self, t: &'static str) -> V {
@@ -696,7 +792,15 @@ impl<'r> Gen<'r> {
         let mut wrap: Vec<Box<dyn FnOnce(C) -> C>> = Vec::new();
         let n_bind = 2 + self.rng.below(4) as usize;
         for _ in 0..n_bind {
-            match self.rng.below(5) {
+            match self.rng.below(6) {
+                | 5 => {
+                    if let Some((x, v, t, y, call, res)) = self.gen_object(&ctx, size / n_bind) {
+                        ctx.push((x, t));
+                        wrap.push(Box::new(move |k| C::Let(x, v, Box::new(k))));
+                        ctx.push((y, res.clone()));
+                        wrap.push(Box::new(move |k| C::Bind(y, Box::new(call), res, Box::new(k))));
+                    }
+                }
                 | 0 => {
                     let (x, v, t) = self.gen_loop(&ctx);
                     ctx.push((x, t));
